@@ -225,6 +225,14 @@ ALSO['C13'] += ' Keyword order of the conditions shuffled.'
 ALSO['C06'] += ' Reactions printed, compared and serialised between writes.'
 ALSO['C07'] += ' Objects printed, compared and serialised between writes.'
 
+# round 9
+ALSO['C05'] += ' The largest file of the quantifier (200 species and a comment banner, beyond 64 KiB).'
+ALSO['C06'] += ' Species with mole fraction 0 in every run.'
+ALSO['C07'] += ' The reaction ids each CTI phase lists are expanded and compared; adjacent numbers across two id prefixes.'
+ALSO['C08'] += ' Gas species next to their phase-tagged adsorbed forms.'
+ALSO['C10'] += ' References off together with element entropies.'
+ALSO['C13'] += ' Heating/cooling cycles (first and last temperature equal).'
+
 
 def build():
     checks = []
